@@ -518,10 +518,13 @@ fn c18(toks: &[&str]) -> String {
                 let want = fresh(req.mode, pts, l);
                 let ok = if kind == "o" {
                     let c = Curve::new(req.mode, pts, l, &mut bufs);
-                    same_curve(c.path(), c.lengths(), &want) && c == want && c.as_borrowed_curve().to_owned_curve() == want
+                    let back = c.as_borrowed_curve().to_owned_curve();
+                    // bit-wise comparison (a NaN vertex, findings F11/F13, is not `==` to itself)
+                    same_curve(c.path(), c.lengths(), &want) && same_curve(back.path(), back.lengths(), &want)
                 } else {
                     let c = BorrowedCurve::new(req.mode, pts, l, &mut bufs);
-                    same_curve(c.path(), c.lengths(), &want) && c.to_owned_curve() == want
+                    let own = c.to_owned_curve();
+                    same_curve(c.path(), c.lengths(), &want) && same_curve(own.path(), own.lengths(), &want)
                 };
                 (ok, pts.is_empty())
             }
